@@ -4,9 +4,10 @@ import (
 	"context"
 	"errors"
 	"log/slog"
+	"reflect"
 	"runtime/trace"
 
-	"github.com/bits-and-blooms/bitset"
+	"github.com/gordian-engine/gordian/gcrypto"
 	"github.com/gordian-engine/gordian/internal/gchan"
 	"github.com/gordian-engine/gordian/tm/tmconsensus"
 	"github.com/gordian-engine/gordian/tm/tmengine/tmelink"
@@ -238,44 +239,41 @@ func (s *ChattyStrategy) broadcastAll(ctx context.Context, view tmconsensus.Vers
 }
 
 func (s *ChattyStrategy) broadcastUpdatesOnly(ctx context.Context, prev, cur tmconsensus.VersionedRoundView) bool {
-	if len(cur.ProposedHeaders) != len(prev.ProposedHeaders) {
+	// Compare by content, not by count: an equal number of proposed headers or of signers
+	// does not mean the same proposed headers or the same signatures
+	// (for example, a second vote from a validator who already voted for another block).
+
+	if !reflect.DeepEqual(cur.ProposedHeaders, prev.ProposedHeaders) {
 		if !s.broadcastProposedBlocks(ctx, cur) {
 			return false
 		}
 	}
 
-	// Compare the count of set bits in the signature bitsets
-	// to determine if we need to broadcast updates for those.
-
-	prevPrevoteBitset := bitset.New(0)
-	var bs bitset.BitSet
-	for _, p := range prev.PrevoteProofs {
-		p.SignatureBitSet(&bs)
-		prevPrevoteBitset.InPlaceUnion(&bs)
-	}
-	curPrevoteBitset := bitset.New(0)
-	for _, p := range cur.PrevoteProofs {
-		p.SignatureBitSet(&bs)
-		curPrevoteBitset.InPlaceUnion(&bs)
-	}
-	if curPrevoteBitset.Count() != prevPrevoteBitset.Count() {
+	if !sameProofs(prev.PrevoteProofs, cur.PrevoteProofs) {
 		if !s.broadcastPrevotes(ctx, cur) {
 			return false
 		}
 	}
 
-	prevPrecommitBitset := bitset.New(0)
-	for _, p := range prev.PrecommitProofs {
-		p.SignatureBitSet(&bs)
-		prevPrecommitBitset.InPlaceUnion(&bs)
-	}
-	curPrecommitBitset := bitset.New(0)
-	for _, p := range cur.PrecommitProofs {
-		p.SignatureBitSet(&bs)
-		curPrecommitBitset.InPlaceUnion(&bs)
-	}
-	if curPrecommitBitset.Count() != prevPrecommitBitset.Count() {
+	if !sameProofs(prev.PrecommitProofs, cur.PrecommitProofs) {
 		if !s.broadcastPrecommits(ctx, cur) {
+			return false
+		}
+	}
+
+	return true
+}
+
+// sameProofs reports whether prev and cur hold exactly the same signatures
+// for exactly the same block hashes.
+func sameProofs(prev, cur map[string]gcrypto.CommonMessageSignatureProof) bool {
+	if len(prev) != len(cur) {
+		return false
+	}
+
+	for hash, c := range cur {
+		p, ok := prev[hash]
+		if !ok || !reflect.DeepEqual(p.AsSparse(), c.AsSparse()) {
 			return false
 		}
 	}
